@@ -11,6 +11,16 @@ import (
 
 func init() {
 	props["C08"] = runC08
+	ops["as_modifier"] = func(a []string) string {
+		m, err := gts.AsModifier(string(unhx(a[0])))
+		if err != nil {
+			return "err"
+		}
+		return "ok " + modSx(m)
+	}
+	ops["mod_show"] = func(a []string) string {
+		return "ok " + hx([]byte(sxMod(parseSx(a[0])[0]).String()))
+	}
 	props["C09"] = runC09
 	ops["region_resize"] = func(a []string) string {
 		return "ok " + regionSx(sxRegion(parseSx(a[0])[0]).Resize(sxMod(parseSx(a[1])[0])))
@@ -258,7 +268,62 @@ func runC08(o *Out) {
 			}
 		}
 	}
+	runModifierText(o)
 	runLocators(o)
+}
+
+// every string of up to 6 (thorough 7) symbols over the modifier alphabet through
+// AsModifier (model: as_modifier), and the printed form of every modifier with
+// offsets in a small grid and at the edges of int through Modifier.String
+// (model: mod_show) and back.
+func runModifierText(o *Out) {
+	syms := []string{"^", "$", "..", ".", "+", "-", "0", "1", "7"}
+	maxSyms := 5
+	if o.Tier == "thorough" {
+		maxSyms = 6
+	}
+	var rec func(cur string, n int)
+	rec = func(cur string, n int) {
+		if n > 0 {
+			res := o.Run("modifier-string", true, "as_modifier", hx([]byte(cur)))
+			if res == "panic" {
+				o.Violate("panic", "as_modifier "+hx([]byte(cur)), cur)
+			} else if strings.HasPrefix(res, "ok ") {
+				// an accepted string prints to a fixed point of parse-then-print
+				m, _ := gts.AsModifier(cur)
+				back, err := gts.AsModifier(m.String())
+				if err != nil || back.String() != m.String() {
+					o.Violate("modifier-parse-print-fixpoint", "as_modifier "+hx([]byte(cur)), fmt.Sprintf("%q -> %q", cur, m.String()))
+				}
+			}
+		}
+		if n == maxSyms {
+			return
+		}
+		for _, s := range syms {
+			rec(cur+s, n+1)
+		}
+	}
+	rec("", 0)
+	offs := []int{0, 1, -1, 9, -9, 10, -10, 99, 100, -100, 12345, -12345, 1<<31 - 1, -(1 << 31), 1<<62 + 7, -(1<<62 + 7), 1<<63 - 1, -(1<<63 - 1)}
+	var mods []gts.Modifier
+	for _, p := range offs {
+		mods = append(mods, gts.Head(p), gts.Tail(p))
+		for _, q := range offs {
+			mods = append(mods, gts.HeadTail{p, q}, gts.HeadHead{p, q}, gts.TailTail{p, q})
+		}
+	}
+	for _, m := range mods {
+		res := o.Run("modifier-print", true, "mod_show", modSx(m))
+		if !strings.HasPrefix(res, "ok ") {
+			continue
+		}
+		txt := m.String()
+		res = o.Run("modifier-reparse", true, "as_modifier", hx([]byte(txt)))
+		if want := "ok " + modSx(m); res != want {
+			o.Violate("modifier-roundtrip", "as_modifier "+hx([]byte(txt)), fmt.Sprintf("%s printed %q reads back as %s", modSx(m), txt, res))
+		}
+	}
 }
 
 func checkResizeAll(o *Out, r gts.Region, seq gts.Sequence, cnt *int, all bool) {
